@@ -123,8 +123,9 @@ func runC04(c *fw.Ctx) {
 		"overwritten": {up("x", "v1"), up("x", "v2-longer")},
 		"recreated":   {up("x", "v1"), {Kind: "Delete", Bucket: "b", Name: "x"}, up("x", "v3")},
 		"patched2":    {up("x", "v1"), patch("x", `{"contentType":"a/b"}`), patch("x", `{"metadata":{"z":"9"}}`)},
+		"samecontent": {{Kind: "Upload", Proto: "multipart", Bucket: "b", Name: "x", Data: []byte("NEW"), Meta: gcs.ObjMeta{ContentType: "text/new", Metadata: map[string]string{"n": "1"}, Md5Hash: gcs.MD5b64([]byte("NEW"))}}},
 	}
-	stateNames := []string{"absent", "fresh", "patched", "overwritten", "recreated", "patched2"}
+	stateNames := []string{"absent", "fresh", "patched", "overwritten", "recreated", "patched2", "samecontent"}
 	mkOps := func(conds map[string]string) []GOp {
 		newMeta := gcs.ObjMeta{ContentType: "text/new", Metadata: map[string]string{"n": "1"}}
 		return []GOp{
@@ -144,6 +145,10 @@ func runC04(c *fw.Ctx) {
 			{Kind: "Patch", Bucket: "b", Name: "x", PatchBody: []byte(`{"metadata":{"rmw":"2"},"metageneration":"2"}`), Conds: conds},
 			{Kind: "Delete", Bucket: "b", Name: "x", Conds: conds},
 			{Kind: "Compose", Bucket: "b", Name: "x", Srcs: []GSrc{{Name: "s1"}, {Name: "s2"}}, Meta: gcs.ObjMeta{ContentType: "text/composed"}, Conds: conds},
+			// uploads that DECLARE the digest of their content (state "samecontent": the stored object already holds exactly
+			// these bytes - a retried create must still be judged by its conditions, the emulator cannot know it is a retry)
+			{Kind: "Upload", Proto: "multipart", Bucket: "b", Name: "x", Data: []byte("NEW"), Meta: gcs.ObjMeta{ContentType: "text/new", Metadata: map[string]string{"n": "1"}, Md5Hash: gcs.MD5b64([]byte("NEW"))}, Conds: conds},
+			{Kind: "Upload", Proto: "resumable", Bucket: "b", Name: "x", Data: []byte("NEW"), Meta: gcs.ObjMeta{ContentType: "text/new", Md5Hash: gcs.MD5b64([]byte("NEW"))}, Conds: conds},
 		}
 	}
 	var item int64
@@ -173,6 +178,10 @@ func runC04(c *fw.Ctx) {
 			for _, srcs := range [][]GSrc{
 				{{Name: "s1", Gen: "cur"}}, {{Name: "s1", Gen: "other"}}, {{Name: "s1", Gen: "cur"}, {Name: "s2", Gen: "other"}},
 				{{Name: "s1"}, {Name: "s2", Gen: "cur"}}, {{Name: "x", Gen: "cur"}, {Name: "s1"}}, {{Name: "x", Gen: "other"}}, {{Name: "missing", Gen: "cur"}},
+				// the same source more than once, with conditions that differ between the occurrences
+				{{Name: "s1", Gen: "cur"}, {Name: "s1", Gen: "other"}}, {{Name: "s1"}, {Name: "s1", Gen: "other"}}, {{Name: "s1", Gen: "other"}, {Name: "s1", Gen: "cur"}},
+				{{Name: "s1", Gen: "cur"}, {Name: "s1", Gen: "cur"}}, {{Name: "s1", Gen: "cur"}, {Name: "s2", Gen: "cur"}, {Name: "s1", Gen: "other"}},
+				{{Name: "s2"}, {Name: "s1", Gen: "cur"}, {Name: "s2", Gen: "other"}}, {{Name: "x", Gen: "cur"}, {Name: "x", Gen: "other"}},
 			} {
 				for _, conds := range []map[string]string{nil, {"ifGenerationMatch": "cur"}, {"ifGenerationMatch": "other"}, {"ifGenerationMatch": "zero"}, {"ifMetagenerationMatch": "other"}} {
 					item++
